@@ -204,6 +204,13 @@ class PathCtx:
         except Exception:
             return None
 
+    def while_hook(self, interp, node, env):
+        for h in getattr(self, "while_hooks", ()):
+            r = h(interp, node, env)
+            if r is not None:
+                return r
+        return None
+
     def loop_hook(self, interp, node, it, env):
         for h in self.loop_hooks:
             r = h(interp, node, it, env)
